@@ -732,10 +732,13 @@ impl<'a> SkiplistIterator<'a> {
 		if self.nd == self.list.head || self.nd == self.lower_node {
 			return;
 		}
-		// Check upper bound first - if entry is at or past upper, move backward
+		// Check upper bound first - if entry is at or past upper, move backward.
+		// (Not `is_valid()` here: an earlier forward seek may have cached this very node
+		// as `upper_node`, which `is_valid()` treats as out of range; the walk back to
+		// the last key below the bound has to start from it all the same.)
 		if let Some(upper) = self.upper.as_deref() {
-			while self.is_valid() {
-				let key = self.key_bytes();
+			while self.nd != self.list.head && self.nd != self.list.tail && !self.nd.is_null() {
+				let key = unsafe { (*self.nd).get_key_bytes(&self.list.arena) };
 				if (self.list.cmp)(upper, key) == Ordering::Greater {
 					// key < upper, so this entry is valid
 					break;
